@@ -101,6 +101,11 @@ func ValidatePreparedProof(
 		return false
 	}
 
+	// the two parts are the signed headers of a PREPREPARE and of PREPAREs: other signed headers share their layout
+	if ppBlockRef.MessageType() != protocol.LEAN_HELIX_PREPREPARE || pBlockRef.MessageType() != protocol.LEAN_HELIX_PREPARE {
+		return false
+	}
+
 	if !pBlockRef.View().Equal(ppView) {
 		return false
 	}
